@@ -459,14 +459,21 @@ def _search_one(args):
         # distribution flags
         out, _ = run_real(DG, Mono, degree, hist, snap=False)
         col = [k for k, o in enumerate(out) if o.get("empty")]
-        fa = bool(col) and any(op[0] == "F" for op in hist[col[0] + 1:])
+        fa = 0
+        if col:
+            after = [op[0] for op in hist[col[0] + 1:]]
+            if "F" in after:
+                fa = 1
+                # an insertion and then a fusion after the collapse (second failing loop of a function)
+                if any(k in ("I", "M") and "F" in after[j + 1:] for j, k in enumerate(after)):
+                    fa = 2
         return None, bool(col), fa
     return (f, ext), False, False
 
 
 def search(ctx, DG, Mono, streams, t_budget):
     """streams: list of (name, iterable of (degree, history)).  Every history is followed by fuse, fuse."""
-    failing, ev, nontriv = [], 0, 0
+    failing, ev, distinct = [], 0, set()
     dist = {}
     _search_one.cls = (DG, Mono)
     seen_sig = set()
@@ -477,10 +484,14 @@ def search(ctx, DG, Mono, streams, t_budget):
         res = vlib.pool_map(_search_one, items, procs=16, chunksize=64) if len(items) > 400 else [_search_one(x) for x in items]
         ncol = sum(1 for r in res if r[1])
         nfa = sum(1 for r in res if r[2])
+        nfa2 = sum(1 for r in res if r[2] == 2)
         ev += len(items)
-        nontriv += sum(1 for d, h in items if sum(1 for o in h if o[0] != "F") >= 2)
+        for d, h in items:
+            if sum(1 for o in h if o[0] != "F") >= 2:
+                distinct.add(json.dumps([d, h]))
         dist[name] = {"histories": len(items), "collapsed": ncol, "share_collapsed": round(ncol / max(1, len(items)), 3),
                       "fusion_after_collapse": nfa, "share_fusion_after_collapse": round(nfa / max(1, len(items)), 3),
+                      "insert_then_fusion_after_collapse": nfa2,
                       "mean_len": round(sum(len(h) for _, h in items) / max(1, len(items)), 1),
                       "wall_s": round(time.time() - t0, 1)}
         if items and len(samples) < 6:
@@ -512,7 +523,7 @@ def search(ctx, DG, Mono, streams, t_budget):
             failing.append({"what": what, "sig": sig, "input": {"degree": degree, "history": small, "stream": name,
                                                                  "shrunk_from_len": len(full)},
                             "expected": exp, "observed": obs})
-    return failing, ev, nontriv, dist, samples
+    return failing, ev, len(distinct), dist, samples
 
 
 def out_of_domain(DG, Mono):
@@ -551,8 +562,8 @@ def build_streams(ctx, DG, Mono):
         ex2 = rng.sample(ex2, min(len(ex2), 1500))
     rnd = []
     for _ in range(ctx.n(2500, 40000)):
-        degree = rng.choice([1, 2, 2, 3, 3, 3, 3, 4])
-        nidx = rng.randint(1, 5)
+        degree = rng.choice([1, 2, 2, 3, 3, 3, 3, 3, 3, 4, 4])
+        nidx = rng.choice([1, 2, 2, 3, 3, 4, 4, 5, 5, 5])
         rnd.append((degree, random_history(rng, nidx, degree, rng.randint(1, 40))))
     rec, rec_err = recorded_histories(DG, Mono)
     return [("exhaustive<=2idx,len<=4,deg3", ex), ("exhaustive<=2idx,deg2", ex2), ("random<=5idx,len<=40", rnd),
@@ -562,6 +573,9 @@ def build_streams(ctx, DG, Mono):
 def correspondence(ctx, DG, Mono, streams):
     rng = ctx.rng
     mism = []
+    import glob
+    for f in glob.glob(os.path.join(vlib.COQ, "corr", "c11_*.v")):   # stale shards of an earlier run
+        os.remove(f)
     cases = []
     for name, items in streams:
         items = list(items)
@@ -646,7 +660,7 @@ def correspondence(ctx, DG, Mono, streams):
             "correspondence_histories_ending_in_exception": nraise, "correspondence_skipped_unrepresentable": skipped,
             "correspondence_node_diff_cases": len(ndc), "correspondence_files": len(jobs),
             "correspondence_by_stream": {n: sum(1 for x in full if x[0] == n) for n in sorted({x[0] for x in full})}}
-    return mism[:20], info
+    return mism[:6], info
 
 
 def run(ctx):
@@ -667,7 +681,7 @@ def run(ctx):
     stats = {"evaluations": ev + cinfo.get("correspondence_histories", 0) + cinfo.get("correspondence_node_diff_cases", 0),
              "distinct_nontrivial": nontriv,
              "rule": "search: one evaluation = one history run on the real DeltaGraph with the brute-force oracle after every "
-                     "operation (+ directed completion); non-trivial = history with at least two insertions; "
+                     "operation (+ directed completion); distinct non-trivial = distinct (degree, history) pairs with at least two insertions; "
                      "exhaustive stream complete in the thorough tier, seeded subset in quick",
              "exhaustive_small_complete": exhaustive,
              "distribution": dist,
@@ -704,5 +718,3 @@ def replay(ctx, data):
     return {"what": f"{f['kind']} at operation {f['at']}", "sig": sig, "input": inp,
             "expected": "no exception / sound collapse", "observed": f}
 
-
-NOT_CLAIMED = "in progress"
